@@ -47,7 +47,7 @@ TARGET = {'ctx': 'TCtx', 'app': 'TApp', 'tpt': 'TTpt', 'pin': 'TPin', 'pout': 'T
 OUT_TAG = {'xml': 'PXml', 'soap11': 'PSoap11', 'json': 'PHier', 'yaml': 'PHier', 'msgpack': 'PHier',
            'msgpackrpc': 'PMsgpackRpc'}
 TNS = 'tns'
-STAGES = ('create', 'decomp', 'dispatch', 'deser', 'fn', 'ser', 'redirect')
+STAGES = ('recon', 'create', 'decomp', 'dispatch', 'deser', 'fn', 'ser', 'redirect')
 
 # in protocol / out protocol pairs exercised (every protocol family on both sides)
 PAIRS = [('xml', 'xml'), ('soap11', 'soap11'), ('json', 'json'), ('yaml', 'yaml'), ('msgpack', 'msgpack'),
@@ -295,6 +295,8 @@ class World(object):
                         tap.steps[stage] = kind_of(e)
                     raise
             setattr(obj, name, w)
+        if hasattr(self.server, '_WsgiApplication__reconstruct_wsgi_request'):
+            wrap(self.server, '_WsgiApplication__reconstruct_wsgi_request', 'recon')
         wrap(self.inp, 'create_in_document', 'create')
         wrap(self.inp, 'decompose_incoming_envelope', 'decomp')
         wrap(self.inp, 'generate_method_contexts', 'dispatch')
@@ -555,13 +557,26 @@ def oracle(case, obs):
     mgrs = ref_handlers(case['prog'])
     raising = {(b[0], b[1]) for b in case['beh']}
     lt = obs['ltrace']
-    # group the flat trace into firings: maximal runs of calls for the same event that are a
-    # prefix-compatible walk through the expected handler list
-    groups = []          # (event, [lids])
+    dispatched = all(obs['steps'].get(k) is None for k in ('recon', 'create', 'decomp', 'dispatch'))
+
+    def expected(ev):
+        """the listeners one firing of ev reaches, in order"""
+        if ev in ('method_context_created', 'method_context_closed'):
+            return expected_calls(case, mgrs, 'app', ev, False)
+        if ev in METHOD_EVS + REDIR_EVS:
+            return expected_calls(case, mgrs, 'ctx', ev, dispatched)
+        if ev in PIN_EVS:
+            return expected_calls(case, mgrs, 'pin', ev, False)
+        if ev in POUT_EVS:
+            return expected_calls(case, mgrs, 'pout', ev, False)
+        return expected_calls(case, mgrs, 'tpt', ev, False)
+    # group the flat trace into firings: a run of calls for the same event, closed by a raising
+    # listener or when as many listeners were called as one firing reaches
+    groups = []          # [event, [lids], raised]
     for ev, lid in lt:
         if ev == 'func':
             groups.append(['func', [], False])
-        elif groups and groups[-1][0] == ev and not groups[-1][2]:
+        elif groups and groups[-1][0] == ev and not groups[-1][2] and len(groups[-1][1]) < len(expected(ev)):
             groups[-1][1].append(lid)
             if (lid, ev) in raising:
                 groups[-1][2] = True
@@ -623,27 +638,12 @@ def oracle(case, obs):
         if e != 'func' and evseq.count(e) > 1:
             bad.append(('event-twice', '%s fired %d times' % (e, evseq.count(e))))
     # 7. listeners run in registration order, each once, inherited ones included
-    dispatched = obs['steps'].get('create') is None and obs['steps'].get('decomp') is None \
-        and obs['steps'].get('dispatch') is None and case['request'] != 'too_long'
     for g in groups:
         if g[0] == 'func':
             continue
         ev, lids, raised = g
-        if ev in METHOD_EVS + REDIR_EVS:
-            if ev in ('method_context_created', 'method_context_closed'):
-                exp = expected_calls(case, mgrs, 'app', ev, False)
-            else:
-                exp = expected_calls(case, mgrs, 'ctx', ev, dispatched)
-        elif ev in PIN_EVS:
-            exp = expected_calls(case, mgrs, 'pin', ev, False)
-        elif ev in POUT_EVS:
-            exp = expected_calls(case, mgrs, 'pout', ev, False)
-        else:
-            exp = expected_calls(case, mgrs, 'tpt', ev, False)
-        if raised:
-            ok = exp[:len(lids)] == lids
-        else:
-            ok = exp == lids
+        exp = expected(ev)
+        ok = (exp[:len(lids)] == lids) if raised else (exp == lids)
         if not ok:
             bad.append(('listener-order', '%s: listeners called %s, registered (in order, once each) %s' % (ev, lids, exp)))
     # 8. transport level (WSGI)
